@@ -38,7 +38,8 @@ std::thread_local! {
     /// [kind; path; a; b; c; d]  (1 on_packet_sent: time_sent, bytes, app_limited (0 None, 1 false, 2 true);
     ///  2 on_ack: newest acked time_sent, bytes, ack receive time, estimator has a first RTT sample;
     ///  3 on_packet_lost: lost bytes, persistent_congestion, new_loss_burst, timestamp;
-    ///  4 on_packet_discarded: bytes)
+    ///  4 on_packet_discarded: bytes;
+    ///  5 Context::on_packet_ack: range start, range end, timestamp)
     static CC_CALLS: core::cell::RefCell<Vec<i128>> = core::cell::RefCell::new(Vec::new());
 }
 
@@ -322,7 +323,17 @@ impl recovery::Context<Cfg> for Ctx<'_> {
         ));
     }
 
-    fn on_packet_ack(&mut self, _timestamp: Timestamp, _packet_number_range: &PacketNumberRange) {}
+    fn on_packet_ack(&mut self, timestamp: Timestamp, packet_number_range: &PacketNumberRange) {
+        // kind 5: the range the manager reports as acknowledged by the peer (ACK manager, streams)
+        cc_call(
+            5,
+            self.path_id.as_u8(),
+            packet_number_range.start().as_u64() as i128,
+            packet_number_range.end().as_u64() as i128,
+            time_us(timestamp),
+            0,
+        );
+    }
 
     fn on_packet_loss<Pub: event::ConnectionPublisher>(
         &mut self,
